@@ -557,6 +557,72 @@ Qed.
 Lemma stop_shutdown : forall s, s_shutdown (stop s) = true.
 Proof. intro s. unfold stop. destruct (s_shutdown s) eqn:E; [exact E|reflexivity]. Qed.
 
+(* ---- an application message that is in sequence IS delivered -------------------------------------------------- *)
+(* the types process sends to handle_application: everything but the seven one-character administrative types --
+   in particular every type of two or more characters, whatever its first character *)
+Definition app_type (t : bytes) : bool :=
+  match t with
+  | [c] => negb ((c =? 48) || (c =? 49) || (c =? 50) || (c =? 51) || (c =? 52) || (c =? 53) || (c =? 65))
+  | _ => true
+  end.
+
+Lemma dispatch_app : forall q m s, app_type (m_type m) = true ->
+  dispatch sc decode now q m s = bind (app_call q m) (fun r => ret (r, false)) s.
+Proof.
+  intros q m s A. unfold dispatch. fold (app_call q m).
+  destruct (m_type m) as [|c [|c2 l]]; [reflexivity| |reflexivity].
+  cbn [app_type] in A. apply negb_true_iff in A.
+  repeat (apply orb_false_iff in A; destruct A as [A ?]).
+  repeat match goal with H : (c =? _) = false |- _ => rewrite H; clear H end. reflexivity.
+Qed.
+
+Lemma app_type_not_reset : forall t, app_type t = true -> beq t mt_sequence_reset = false.
+Proof.
+  intros t A. destruct t as [|c [|c2 l]]; [reflexivity| |].
+  - cbn [app_type] in A. apply negb_true_iff in A. repeat (apply orb_false_iff in A; destruct A as [A ?]).
+    unfold mt_sequence_reset. cbn [beq]. match goal with H : (c =? 52) = false |- _ => rewrite H end. reflexivity.
+  - unfold mt_sequence_reset. cbn [beq]. rewrite andb_false_r. reflexivity.
+Qed.
+
+Lemma sequence_check_inseq : forall q m s, inseq s q m -> sequence_check sc now q m s = (inl true, s, []).
+Proof.
+  intros q m s I. unfold sequence_check, bind, get. destruct I as [I|[I [P O]]].
+  - subst q. rewrite N.ltb_irrefl. reflexivity.
+  - assert (A : (s_next_recv s <? q) = false) by (apply N.ltb_ge; lia). rewrite A.
+    apply N.ltb_lt in I. rewrite I. unfold possdup_of in P. rewrite P. cbn [negb].
+    unfold orig_after in O.
+    destruct (get_field T_OrigSendingTime (m_hdr m)); [|reflexivity].
+    destruct (get_field T_SendingTime (m_hdr m)); [|reflexivity]. rewrite O. reflexivity.
+Qed.
+
+Lemma enforce_inseq : forall q m s,
+  is_established (s_state s) = true -> (s_state s = st_logon_received \/ compid_pass s m = true) ->
+  beq (m_type m) mt_sequence_reset = false -> inseq s q m ->
+  enforce sc now q m s = (inl false, s, []).
+Proof.
+  intros q m s Est C T I. unfold enforce. unfold bind at 1. unfold get at 1. rewrite Est. unfold bind at 1.
+  assert (P : (if negb (s_state s =? st_logon_received) then compid_check m else ret tt) s = (inl tt, s, [])).
+  { destruct (s_state s =? st_logon_received) eqn:L; cbn [negb]; [reflexivity|].
+    destruct C as [C|C]; [apply N.eqb_eq in C; congruence|]. apply compid_check_pass. exact C. }
+  rewrite P. rewrite T. cbn [negb]. unfold bind. rewrite (sequence_check_inseq q m s I). reflexivity.
+Qed.
+
+Theorem process_in_sequence : forall raw s q m,
+  raw_seq raw = Some q -> decode raw = DecOk m -> app_type (m_type m) = true -> s_active s = true ->
+  is_established (s_state s) = true -> (s_state s = st_logon_received \/ compid_pass s m = true) ->
+  inseq s q m ->
+  exists s', process sc decode fl now raw s =
+             (mem_bytes (m_type m) (sc_routed sc), s', [EDeliver (m_type m) q (possdup_of m)]).
+Proof.
+  intros raw s q m R D A Act Est C I.
+  rewrite (process_decoded _ _ _ _ R D). unfold catch19, body19, process_body.
+  unfold bind at 1. rewrite (dispatch_app q m s A).
+  unfold app_call. unfold bind at 1. unfold bind at 1. unfold get at 1. rewrite Act.
+  unfold handle_application. unfold bind at 1.
+  rewrite (enforce_inseq q m s Est C (app_type_not_reset _ A) I).
+  unfold bind, emit, ret, modify. cbn. eexists. reflexivity.
+Qed.
+
 End Now.
 
 (* sending does not touch the expected number nor the state *)
@@ -711,6 +777,17 @@ Proof.
   destruct (send sc now s (generate_reject sc 0 (Some (fmt2 txt_invmsg raw txt_at fl)) None) 0 false) as [[ok s2] e2] eqn:E.
   destruct (send_keeps _ _ _ _ _ _ _ _ E) as [K _]. rewrite K. reflexivity.
 Qed.
+
+(* (7) an application message (any type process sends to handle_application, in particular every type of two or
+       more characters) that is in sequence IS delivered, exactly once and as the only event *)
+Theorem in_sequence_delivered : forall now raw s m,
+  decode raw = DecOk m -> raw_seq raw = Some (field_seq m) -> app_type (m_type m) = true -> s_active s = true ->
+  is_established (s_state s) = true -> (s_state s = st_logon_received \/ compid_pass s m = true) ->
+  (field_seq m = s_next_recv s \/
+   (field_seq m < s_next_recv s /\ possdup_of m = true /\ orig_after m = false)) ->
+  exists s', process sc decode fl now raw s =
+             (mem_bytes (m_type m) (sc_routed sc), s', [EDeliver (m_type m) (field_seq m) (possdup_of m)]).
+Proof. intros now raw s m D R. apply process_in_sequence; assumption. Qed.
 
 (* (6) once the session is shut down the reader loop hands nothing more to process *)
 Theorem after_stop_nothing : forall now l s evs,
